@@ -206,8 +206,26 @@ def replay_candidate(pid, cand, tmpdir):
 def replay_raw(pid, path):
     mod = importlib.import_module('harness.' + pid.lower())
     cand = json.load(open(path))
+    alts = []
+    if isinstance(cand.get('inputs'), dict):
+        alts = cand['inputs'].pop('__alt__', [])
     try:
         r = mod.replay(cand)
+        # the solver's own model did not reproduce (uninterpreted exp/Phi): try the alternative concrete
+        # points attached to the same `sat` obligation; anything reported is reproduced on the real code
+        for a in alts:
+            if r.get('violated'):
+                break
+            c2 = dict(cand)
+            c2['inputs'] = a
+            try:
+                r2 = mod.replay(c2)
+            except Exception:  # noqa: BLE001
+                continue
+            if r2.get('violated'):
+                r = r2
+                r['inputs_used'] = a
+                r['witness_source'] = 'corner/shadow point tried after the solver model did not reproduce'
     except Exception as e:  # noqa: BLE001
         r = {'violated': False, 'detail': 'replay raised ' + repr(e) + ' ' + traceback.format_exc()[-800:], 'error': True}
     print(json.dumps(r))
@@ -302,6 +320,10 @@ def check_main(pid, tier, only=None, njobs=None, keep=False):
             vio_keys.add(k)
             h = hashlib.sha1(k.encode()).hexdigest()[:10]
             path = os.path.join(ROOT, 'replays', f'{pid}-{h}.json')
+            if isinstance(cand.get('inputs'), dict):
+                cand = dict(cand)
+                cand['inputs'] = dict(rr.get('inputs_used') or cand['inputs'])
+                cand['inputs'].pop('__alt__', None)
             with open(path, 'w') as f:
                 json.dump({'property': pid, 'candidate': cand, 'replay_result': rr,
                            'how': f'./check {pid} --replay {path}'}, f, indent=1, default=str)
